@@ -1,10 +1,12 @@
 (* C05 -- Observation runs exactly the requested parameter space, correctly labelled.
    Statements only; the model is Model/ParamSpace.v (pyxel/observation/misc.py ProductMode /
    SequentialMode / CustomMode, observation.py short dimension names), proofs in
-   Proofs/ParamSpace.v and Proofs/ParamSpaceNames.v.  No generated part: the model is tied to the
-   code by the correspondence leg (harness/props/c05.py). *)
+   Proofs/ParamSpace.v and Proofs/ParamSpaceNames.v.  Gen_C05.src_cfg is regenerated from the source on
+   every run (translator/c05.py); the loops of the three modes are tied to the code by the
+   correspondence leg (harness/props/c05.py). *)
 From Coq Require Import ZArith List Bool Arith String Lia.
 From PyxelV Require Import Model.ParamSpace Proofs.ParamSpace Proofs.ParamSpaceNames.
+From PyxelGen Require Import Gen_C05.
 Import ListNotations.
 Local Open Scope string_scope.
 Local Open Scope list_scope.
@@ -91,39 +93,30 @@ Theorem C05_disabled_ignored : forall ps get ncols rows,
 Proof. exact disabled_ignored. Qed.
 Print Assumptions C05_disabled_ignored.
 
-(* Short dimension names.  Full statement: distinct swept keys get distinct names. *)
-Definition C05_dim_names_inj_full : Prop :=
-  forall keys m, NoDup keys -> dim_names keys = Some m -> NoDup (map snd m).
+(* Dimension names (observation.py _get_short_dimension_names_new + misc.py _get_short_name_with_model, as
+   read from the source by the translator: Gen_C05.src_cfg).  Distinct swept keys get distinct names -- the
+   names are the rendered strings, so this is also injectivity of the rendering.  (Round 1 refuted this for
+   the unrepaired rule -- DESIGN F19: "<model>.<argument>" drops the model group; repaired by falling back to
+   the full key when a name is still shared.) *)
+Theorem C05_dim_names_inj : forall keys m,
+  NoDup keys -> dim_names src_cfg keys = Some m -> NoDup (map snd m).
+Proof. intros keys m. exact (dim_names_inj src_cfg keys m eq_refl eq_refl). Qed.
+Print Assumptions C05_dim_names_inj.
 
-(* It is false of the code (DESIGN section 7, F19 -- confirmed): the fallback "<model>.<argument>"
-   drops the model group, so the same model name and argument name in two groups collide. *)
-Theorem C05_dim_names_inj_refuted : ~ C05_dim_names_inj_full.
-Proof.
-  intros H.
-  specialize (H ["pipeline.charge_collection.m1.arguments.a"; "pipeline.charge_measurement.m1.arguments.a"]
-                _ ltac:(repeat constructor; simpl; intuition discriminate) eq_refl).
-  vm_compute in H. inversion H as [|? ? Hn _]. apply Hn. left. reflexivity.
-Qed.
-Print Assumptions C05_dim_names_inj_refuted.
-
-(* The exact condition: two keys at different positions get the same name iff both have five dotted
-   components and agree on the 3rd (model name) and the 5th (argument name). *)
-Theorem C05_dim_names_inj_partial : forall keys m,
-  dim_names keys = Some m ->
-  forall i j ki kj di dj, i <> j ->
-    nth_error m i = Some (ki, di) -> nth_error m j = Some (kj, dj) ->
-    (di = dj <-> (with_model ki = with_model kj /\ with_model ki <> None)).
-Proof. exact dim_names_collide_iff. Qed.
-Print Assumptions C05_dim_names_inj_partial.
-
-(* ... and the name table does not exist at all (the code raises) iff a key whose short name is shared
-   does not have five components, e.g. detector.environment.temperature next to
-   pipeline.<group>.<model>.arguments.temperature. *)
+(* ... every key gets a name (round 1: a key without five components whose last component is shared made
+   the five-tuple unpacking raise) ... *)
 Theorem C05_dim_names_defined : forall keys,
-  dim_names keys = None <->
-  exists k, In k keys /\ 2 <= count_str (short_of k) (map short_of keys) /\ with_model k = None.
-Proof. exact dim_names_defined_iff. Qed.
+  exists m, dim_names src_cfg keys = Some m /\ map fst m = keys.
+Proof. intros keys. exact (dim_names_total src_cfg keys eq_refl). Qed.
 Print Assumptions C05_dim_names_defined.
+
+(* ... and a key whose last component is not shared with another swept key is still named by that last
+   component: results of sweeps without a collision keep their coordinate names. *)
+Theorem C05_dim_names_short_kept : forall keys m k n,
+  NoDup keys -> dim_names src_cfg keys = Some m -> In (k, n) m ->
+  count_str (short_of k) (map short_of keys) = 1 -> n = short_of k.
+Proof. intros keys m k n. exact (dim_names_short_kept src_cfg keys m k n eq_refl). Qed.
+Print Assumptions C05_dim_names_short_kept.
 
 (* ------------------------------------------------------------------------------------ non-vacuity *)
 
@@ -164,13 +157,26 @@ Example ex_custom_accepts_and_slices :
   /\ custom_runs 5 [[1; 2; 3; 4; 5]]%Z ex_custom = None.
 Proof. vm_compute. auto. Qed.
 
+Example ex_src_cfg_is_repaired : src_cfg = cfg_repaired.
+Proof. reflexivity. Qed.
+
 Example ex_dim_names_fallback_distinct :
-  option_map (map snd) (dim_names ["pipeline.charge_collection.m1.arguments.a";
-                                   "pipeline.charge_collection.m2.arguments.a";
-                                   "detector.environment.temperature"]) =
-  Some [WithModel "m1" "a"; WithModel "m2" "a"; Short "temperature"].
+  option_map (map snd) (dim_names cfg_repaired ["pipeline.charge_collection.m1.arguments.a";
+                                                "pipeline.charge_collection.m2.arguments.a";
+                                                "detector.environment.temperature"]) =
+  Some ["m1.a"; "m2.a"; "temperature"].
 Proof. vm_compute. reflexivity. Qed.
 
-Example ex_dim_names_undefined :
-  dim_names ["detector.environment.temperature"; "pipeline.charge_collection.m1.arguments.temperature"] = None.
+(* the two round-1 witnesses now get distinct, defined names *)
+Example ex_dim_names_same_model_two_groups :
+  option_map (map snd) (dim_names cfg_repaired ["pipeline.charge_collection.m1.arguments.a";
+                                                "pipeline.charge_measurement.m1.arguments.a";
+                                                "pipeline.charge_measurement.m2.arguments.b"]) =
+  Some ["pipeline.charge_collection.m1.arguments.a"; "pipeline.charge_measurement.m1.arguments.a"; "b"].
+Proof. vm_compute. reflexivity. Qed.
+
+Example ex_dim_names_detector_and_argument :
+  option_map (map snd) (dim_names cfg_repaired ["detector.environment.temperature";
+                                                "pipeline.charge_collection.m1.arguments.temperature"]) =
+  Some ["detector.environment.temperature"; "m1.temperature"].
 Proof. vm_compute. reflexivity. Qed.
